@@ -141,6 +141,11 @@ def r2(ctx):
                 arg = _inl(f.node, arg)
                 pos_last = (nx[-1].lineno, nx[-1].col_offset)
                 last_two = any(isinstance(n, ast.Call) and isinstance(n.func, ast.Attribute) and n.func.attr == "next" and (n.lineno, n.col_offset) == pos_last for n in ast.walk(arg))
+            # typestate: nothing is consumed before the availability check covering the whole escape
+            from csverif.q import guarded_by as _gb
+            unguarded = [src(c) for c in nx if not (hn and _gb(ctx, f, c, lambda t, h=hn[0]: True if (isinstance(t, ast.Call) and src(t) == src(h)) else None))]
+            ctx.ob("R2", "DOM", f, f"escape \\{letter}: has_next({need}) precedes every digit read", not unguarded,
+                   "every next() of the escape is dominated by the availability check" if not unguarded else f"digits consumed before/without the availability check: {unguarded} (a complete escape near the end of the literal is rejected)", st)
             ctx.ob("R2", "TABLE", f, f"escape \\{letter}", checked and consumed == need and r_ok and last_two and len(apps) == 1,
                    f"\\{letter}: checks has_next({_c(hn[0].args[0]) if hn else None}) (required {need}), consumes {consumed} digits (required {need}), appends int(<last 2 digits>, 16)={last_two}, short input raises ValueError={r_ok}", st)
     # an ordinary character is appended as its code
